@@ -359,6 +359,7 @@ def udp_monitor(case, line):
     asked = {}                                 # seq -> address the application gave (0 = NULL)
     peer = 1 if case.split(";")[0].split()[1] == "1" else 0
     expect = {1: [], 2: []}                    # what each plain socket must receive, in order
+    rec = {}                                   # what each plain socket did receive
     DEST = {0: "the connected peer", 1: "destination 1", 2: "destination 2"}
 
     def seqname(x):
@@ -519,19 +520,22 @@ def udp_monitor(case, line):
                 buf[2] = True
                 pend_stop = True
         elif c in "WY":
-            who = 1 if c == "W" else 2
-            got = a.split(".") if a else []
-            exp = [str(s) for s in expect[who]]
-            if got != exp:
-                stray = [x for x in got if x not in exp and x != "?"]
-                if stray and int(stray[0]) in handed:
-                    sq = int(stray[0])
-                    bad.append((None, "datagram %d for %s arrived at destination %d"
-                                % (sq, DEST.get(asked.get(sq, 0), "?") if asked.get(sq, 0) else
-                                   "the connected peer (destination %s)" % [k for k in expect if sq in expect[k]], who)))
-                else:
-                    bad.append((None, "destination %d received %s but %s were handed to the OS for it (lost, duplicated or reordered)"
-                                % (who, compress_s(got), compress([int(x) for x in exp]))))
+            rec[1 if c == "W" else 2] = a.split(".") if a else []
+    for who in (1, 2):
+        if who not in rec:
+            continue
+        exp = [str(x) for x in expect[who]]
+        other = [str(x) for x in expect[3 - who]]
+        if rec[who] != exp:
+            stray = [x for x in rec[who] if x in other and x not in exp]
+            if stray:
+                sq = int(stray[0])
+                bad.insert(0, (None, "datagram %d for %s arrived at destination %d"
+                               % (sq, ("destination %d" % asked[sq]) if asked.get(sq) else
+                                  "the connected peer (destination %d)" % (3 - who), who)))
+            else:
+                bad.append((None, "destination %d received %s but %s were handed to the OS for it (lost, duplicated or reordered)"
+                            % (who, compress_s(rec[who]), compress(expect[who]))))
     if buf is not None and not buf[2]:
         bad.append((None, "buffer %d from alloc_cb was never handed back" % buf[0]))
     if closedcb and owed:
